@@ -11,17 +11,17 @@ ser_coll!(Vkeywitnesses, NativeScripts, BootstrapWitnesses, PlutusScripts, Plutu
 impl NativeScripts {
     pub uninterp spec fn enc_set(&self, dedup: bool) -> Seq<Tok>;
     #[verifier::external_body] pub fn serialize_as_set(&self, need_deduplication: bool, serializer: &mut Serializer) -> (r: Result<(), CborError>)
-        ensures r is Ok ==> final(serializer).toks() == old(serializer).toks() + self.enc_set(need_deduplication) { unimplemented!() }
+        ensures r is Ok, final(serializer).toks() == old(serializer).toks() + self.enc_set(need_deduplication) { unimplemented!() }
 }
 impl PlutusList {
     pub uninterp spec fn enc_set(&self, dedup: bool) -> Seq<Tok>;
     #[verifier::external_body] pub fn serialize_as_set(&self, need_deduplication: bool, serializer: &mut Serializer) -> (r: Result<(), CborError>)
-        ensures r is Ok ==> final(serializer).toks() == old(serializer).toks() + self.enc_set(need_deduplication) { unimplemented!() }
+        ensures r is Ok, final(serializer).toks() == old(serializer).toks() + self.enc_set(need_deduplication) { unimplemented!() }
 }
 impl PlutusScripts {
     pub uninterp spec fn has(&self, l: Language) -> bool;
     pub uninterp spec fn enc_ver(&self, dedup: bool, l: Language) -> Seq<Tok>;
     #[verifier::external_body] pub fn has_version(&self, language: &Language) -> (r: bool) ensures r == self.has(*language) { unimplemented!() }
     #[verifier::external_body] pub fn serialize_as_set_by_version(&self, need_deduplication: bool, version: &Language, serializer: &mut Serializer) -> (r: Result<(), CborError>)
-        ensures r is Ok ==> final(serializer).toks() == old(serializer).toks() + self.enc_ver(need_deduplication, *version) { unimplemented!() }
+        ensures r is Ok, final(serializer).toks() == old(serializer).toks() + self.enc_ver(need_deduplication, *version) { unimplemented!() }
 }
